@@ -3,7 +3,7 @@ import os, itertools
 import numpy as np
 from ..core import Check, Violation, Script
 from ..runner import Case
-from ..model import Expect, load_error_codes
+from ..model import Expect, load_error_codes, TD
 from .. import cdfspec as cs
 
 FMT_CMODE = {1: 0, 2: 0x0200, 5: 0x0020}
@@ -188,6 +188,54 @@ def gen_case(rng, i, version, kind, strict, full_dim, tier):
             numrecs = max(numrecs, max(e[0] for e in els) + 1)
         reqs.append({"line": line, "wait": wline, "diff": dline, "want": sorted(want), "isput": isput, "els": els, "form": form if form != "nb" else op,
                      "start": start, "count": cnt, "stride": stride})
+    # buffer descriptions that do not fit the request: flexible API, valid start/count, but bufcount x buftype describes
+    # more or fewer elements than the request selects (contiguous and non-contiguous buffer types) -> NC_EIOMISMATCH, file untouched.
+    # Private generator: the requests above keep their random stream.
+    import random
+    prng = random.Random(104729 * i + 7)
+    tnext = [0]
+
+    def talloc():
+        tnext[0] += 1
+        return tnext[0]
+    for _ in range(10):
+        isput = prng.random() < 0.7
+        start = [0] * nd
+        count = [prng.randint(1, max(L, 1)) if L > 0 else 1 for L in shape]
+        if isrec:
+            if numrecs == 0 and not isput:
+                continue
+            count[0] = prng.randint(1, max(numrecs, 1))
+        nel = 1
+        for c in count:
+            nel *= c
+        base = TD.prim_(mtname)
+        kindt = prng.choice(["prim", "contig", "vector", "vector", "resized"])
+        td = {"prim": base, "contig": base.contig(2), "vector": base.vector(prng.randint(2, 4), 1, 2), "resized": base.resized(2 * xsz)}[kindt]
+        per = len(td.tm)
+        wrong = [b for b in range(0, 2 * nel + 3) if b * per != nel and b >= 1]
+        bufcount = prng.choice(wrong)
+        if td.kind != "prim":
+            td.emit(sc, "*", talloc)
+        form = prng.choice(["vara", "vara", "nb"]) if isput else "vara"
+        kw = dict(f=0, v=TV, mt="flex", form="vara", start=",".join(map(str, start)), count=",".join(map(str, count)), bufcount=bufcount, buftype=td.ref())
+        span = td.span(bufcount)
+        op = "put" if isput else "get"
+        if form == "nb":
+            op = "iput"
+            bnum = (bnum + 1) % 1000
+            kw.update(buf=bnum + 1, req=bnum + 1)
+        else:
+            kw["coll"] = 0
+        if isput:
+            kw["data"] = "hex:" + ("b9" * span)
+        else:
+            kw["nbytes"] = span + 8
+        line = sc.add("*", op, **kw)
+        wline = sc.add("*", "wait", f=0, coll=0, reqs="all") if form == "nb" else None
+        dline = sc.add("*", "fdiff", path=path, slot=0)
+        reqs.append({"line": line, "wait": wline, "diff": dline, "want": ["EIOMISMATCH"], "isput": isput, "els": [], "form": "flex-" + td.kind + ("-nb" if form == "nb" else ""),
+                     "start": start, "count": count, "stride": "bufcount=%d x %s(%d elements)" % (bufcount, td.kind, per)})
     sc.add("*", "end_indep", f=0)
     sc.add("*", "close", f=0)
     env = {"PNETCDF_RELAX_COORD_BOUND": "0" if strict else "1"}
